@@ -426,7 +426,38 @@ def replay_errors(ns, ob, model):
     return False, dict(note="fields and messages of the error classes are as documented on %d probes" % len(probes))
 
 
+def replay_new(ns, ob, model):
+    """instantiating an entity class: NotImplementedError without a cutter, ValueError with a blunt or unknown one,
+    an instance of the class otherwise (cutter_check directly, and through __new__ of the three bases)"""
+    import Bio.Restriction as R
+    from Bio.Seq import Seq
+    core = ns["moclo.core"]
+    CircularRecord = ns["moclo.record"].CircularRecord
+    cc = ns["moclo.core._utils"].cutter_check
+    blunt = next(e for e in R.AllEnzymes if e.is_blunt() and not e.is_unknown())
+    unknown = next((e for e in R.AllEnzymes if e.is_unknown()), None)
+    rec = CircularRecord(Seq("ATGCATGC"), id="r")
+    cases = [(NotImplemented, NotImplementedError), (blunt, ValueError), (R.BsaI, None)] + ([(unknown, ValueError)] if unknown is not None else [])
+    for cutter, want in cases:
+        calls = [("cutter_check(%s, 'X')" % getattr(cutter, "__name__", cutter), lambda: cc(cutter, "X"), type(None))]
+        for base in (core.AbstractModule, core.AbstractVector, core.AbstractPart):
+            C = type("Probe", (base,) if base is not core.AbstractPart else (base, core.Entry), dict(cutter=cutter, signature=("AACC", "GGAT")))
+            calls.append(("%s subclass with cutter %s (record)" % (base.__name__, getattr(cutter, "__name__", cutter)), lambda C=C: C(rec), C))
+        for (call, fn, ok_type) in calls:
+            try:
+                got = fn()
+                obs = "returned %s" % type(got).__name__
+                good = want is None and isinstance(got, ok_type)
+            except Exception as e:
+                obs = "raised %r" % (e,)
+                good = want is not None and type(e) is want
+            if not good:
+                return True, dict(call=call, expected=(want.__name__ if want else "an instance"), observed=obs)
+    return False, dict(note="cutter checks behave as specified for NotImplemented, a blunt, an unknown and a type IIS enzyme")
+
+
 REPLAY = {
+    "cutter_check": replay_new, "AbstractModule.__new__": replay_new, "AbstractVector.__new__": replay_new, "AbstractPart.__new__": replay_new,
     "InvalidSequence.__init__": replay_errors, "InvalidSequence.__str__": replay_errors,
     "DuplicateModules.__init__": replay_errors, "DuplicateModules.__str__": replay_errors,
     "MissingModule.__init__": replay_errors, "MissingModule.__str__": replay_errors,
